@@ -484,6 +484,35 @@ class Interp:
                     self.loops.pop()
                     self.emit("endloop", kind, st)
                 return
+            if isinstance(st, ast.For) and self.append_only and self.depth == 0 and not st.orelse and isinstance(st.iter, ast.Call) and isinstance(st.iter.func, ast.Name) \
+                    and not st.iter.keywords and (
+                        (st.iter.func.id == "enumerate" and len(st.iter.args) == 1 and isinstance(st.iter.args[0], ast.Name) and st.iter.args[0].id in self.append_only)
+                        or (st.iter.func.id == "zip" and len(st.iter.args) == 2 and isinstance(st.iter.args[1], ast.Name) and st.iter.args[1].id in self.append_only
+                            and isinstance(st.iter.args[0], ast.Call) and ast.unparse(st.iter.args[0].func) in ("count", "itertools.count") and len(st.iter.args[0].args) <= 2
+                            and all(isinstance(a_, ast.Constant) and isinstance(a_.value, int) for a_ in st.iter.args[0].args))):
+                # replay of an append-only log paired with its positions: zip(count(a, s), log) / enumerate(log)
+                log = self.lookup(st.iter.args[-1].id)
+                items = log[1] if log is not None and log[0] == "list" else () if log is not None and ((log[0] == "c" and log[1] == ()) or (log[0] == "call" and not log[2])) else None
+                if items is not None:
+                    cargs = [a_.value for a_ in st.iter.args[0].args] if st.iter.func.id == "zip" else []
+                    start, step = (cargs + [0, 1][len(cargs):])[:2] if st.iter.func.id == "zip" else (0, 1)
+                    kind = ("for!", it)
+                    self.emit("loop", kind, st)
+                    self.loops.append(kind)
+                    try:
+                        for i_, x in enumerate(items):
+                            self._assign(st.target, ("tuple", (C(start + step * i_), x)), st, quiet=True)
+                            try:
+                                self._block(st.body)
+                            except _Continue:
+                                self.emit("continue", None, st)
+                            except _Break:
+                                self.emit("break", None, st)
+                                break
+                    finally:
+                        self.loops.pop()
+                        self.emit("endloop", kind, st)
+                    return
             if isinstance(st, ast.For) and roles is None and it[0] == "c" and isinstance(it[1], tuple) and len(it[1]) <= 32 and not st.orelse:
                 # a loop over a folded constant tuple is executed element by element (exact)
                 kind = ("for!", it)
@@ -1633,7 +1662,7 @@ def _pure_reads(fn: ast.AST, nm: str) -> List[ast.AST]:
     """reads of the local `nm` that cannot change it: argument of bool / len / tuple / sorted ..., operand of `not`, a test"""
     out: List[ast.AST] = []
     for n in ast.walk(fn):
-        if isinstance(n, ast.Call) and isinstance(n.func, ast.Name) and n.func.id in ("bool", "len", "tuple", "sorted", "reversed", "enumerate", "any", "all", "sum", "min", "max", "bytes") \
+        if isinstance(n, ast.Call) and isinstance(n.func, ast.Name) and n.func.id in ("bool", "len", "tuple", "sorted", "reversed", "enumerate", "any", "all", "sum", "min", "max", "bytes", "zip") \
                 and not n.keywords:
             out += [a for a in n.args if isinstance(a, ast.Name) and a.id == nm]
         elif isinstance(n, ast.Call) and isinstance(n.func, ast.Attribute) and n.func.attr == "join" and isinstance(n.func.value, ast.Constant) and not n.keywords:
